@@ -72,15 +72,19 @@ def kinds():
       'list1': K('list1', 1, False, list),
       'tuple2': K('tuple2', 2, False, tuple),
       'dict1': K('dict1', 1, False, lambda v: {'k': v[0]}),
+      'dict0': K('dict0', 0, False, lambda v: {}),
+      'list0': K('list0', 0, False, lambda v: []),
   }
 
 
 ROOTS = ['cfg', 'cfgb', 'ckw', 'cpos', 'par']
 FAMILIES = {
-    'A': (['cfg', 'ckw', 'par', 'list2', 'tuple2', 'dict1'], 2, 1),
+    'A': (['cfg', 'ckw', 'par', 'list2', 'tuple2', 'dict1', 'dict0', 'list0'],
+          2, 1),
     'P': (['cpos', 'cfg', 'list1'], 2, 1),
     'S3': (['cfg', 'list2'], 3, 1),
-    'B': (['cfg', 'cfgb', 'ckw', 'par', 'list2', 'tuple2', 'dict1'], 2, 2),
+    'B': (['cfg', 'cfgb', 'ckw', 'par', 'list2', 'tuple2', 'dict1', 'dict0',
+           'list0'], 2, 2),
 }
 LEAVES = ['L1', 'L2']
 NCHUNK = 32
